@@ -21,6 +21,9 @@ SEARCH = {
     "C10": [["c10", "3"]],
     "C09": [["c09", "3"]],
     "C19": [["c19", "2"]],
+    "C13": [["c13", "1"]],
+    "C14": [["c14"]],
+    "C15": [["c15", "2"]],
 }
 THOROUGH = {
     "C01": [["diff", "C01", "3", "4"]],
@@ -34,6 +37,9 @@ THOROUGH = {
     "C10": [["c10", "4"]],
     "C09": [["c09", "5"]],
     "C19": [["c19", "4"]],
+    "C13": [["c13", "3"]],
+    "C14": [["c14"]],
+    "C15": [["c15", "3"]],
 }
 
 
